@@ -845,6 +845,10 @@ func runC16(r *Rand, tier string, o *Out) {
 			o.Fail("objects on the client's side of a service: "+strings.SplitN(strings.TrimPrefix(res, "fail:"), " ", 2)[0], op+" => "+res+" "+crashReason(lastFailDetail))
 		}
 	}
+	if res := o.Do("P", "svc.posttold", true); res != "ok" {
+		o.Fail("removal of an object with subscribers: "+strings.SplitN(strings.TrimPrefix(res, "fail:"), " ", 2)[0], "svc.posttold => "+res)
+	}
+	o.Count("op:subscriber-registered-with-a-post")
 	for i := 0; i < 2; i++ {
 		res := o.Do("P", "svc.termwalk", true)
 		o.Count("op:registrations-while-the-subscribers-are-told")
